@@ -599,6 +599,8 @@ func c10Controls() []core.Mutant {
 		{Name: "visitors run on a copy of tree.Node", File: "expr.go", Old: "\t\tfor _, v := range config.Visitors {\n\t\t\tast.Walk(&tree.Node, v)\n", New: "\t\tfor _, v := range config.Visitors {\n\t\t\tcp := tree.Node\n\t\t\tast.Walk(&cp, v)\n", Rule: "R10.5", Construct: "Walk"},
 		{Name: "switch on a copy taken before Enter", File: "ast/visitor.go", Old: "\tw.visitor.Enter(node)\n\n\tswitch n := (*node).(type) {", New: "\told := *node\n\tw.visitor.Enter(node)\n\n\tswitch n := (old).(type) {", Rule: "R10.3", Construct: "switch re-reads"},
 		{Name: "list walked by value", File: "ast/visitor.go", Old: "\tcase *ArrayNode:\n\t\tfor i := range n.Nodes {\n\t\t\tw.walk(&n.Nodes[i])\n", New: "\tcase *ArrayNode:\n\t\tfor _, x := range n.Nodes {\n\t\t\tw.walk(&x)\n", Rule: "R10.2", Construct: "ArrayNode/slot Nodes"},
+		{Name: "refactor: counted loop over a local copy of the visitor list", File: "expr.go", Old: "\t\tfor _, v := range config.Visitors {\n\t\t\tast.Walk(&tree.Node, v)\n\t\t}\n", New: "\t\tvisitors := config.Visitors\n\t\tfor i := 0; i < len(visitors); i++ {\n\t\t\tast.Walk(&tree.Node, visitors[i])\n\t\t}\n", Silent: true},
+		{Name: "counted visitor loop that skips the last visitor", File: "expr.go", Old: "\t\tfor _, v := range config.Visitors {\n\t\t\tast.Walk(&tree.Node, v)\n\t\t}\n", New: "\t\tvisitors := config.Visitors\n\t\tfor i := 0; i < len(visitors)-1; i++ {\n\t\t\tast.Walk(&tree.Node, visitors[i])\n\t\t}\n", Rule: "R10.5", Construct: "each registered visitor walks the tree on its own"},
 		{Name: "refactor: reorder clauses", File: "ast/visitor.go", Old: "\tcase *NilNode:\n\t\tw.visitor.Exit(node)\n\tcase *IdentifierNode:\n\t\tw.visitor.Exit(node)\n", New: "\tcase *IdentifierNode:\n\t\tw.visitor.Exit(node)\n\tcase *NilNode:\n\t\tw.visitor.Exit(node)\n", Silent: true},
 		{Name: "refactor: nil guard around a slot", File: "ast/visitor.go", Old: "\tcase *UnaryNode:\n\t\tw.walk(&n.Node)\n", New: "\tcase *UnaryNode:\n\t\tif n.Node != nil {\n\t\t\tw.walk(&n.Node)\n\t\t}\n", Silent: true},
 		{Name: "refactor: helper for lists", File: "ast/visitor.go", Old: "\tcase *FunctionNode:\n\t\tfor i := range n.Arguments {\n\t\t\tw.walk(&n.Arguments[i])\n\t\t}\n", New: "\tcase *FunctionNode:\n\t\tfor i := 0; i < len(n.Arguments); i++ {\n\t\t\tw.walk(&n.Arguments[i])\n\t\t}\n", Silent: true},
